@@ -178,6 +178,11 @@ def canon(t):
         for x in t[1]:
             out = xor(out, canon(x))
         return out
+    if tag == "un" and t[1] == "USub":
+        v = canon(t[2])
+        if v[0] == "const" and isinstance(v[1], (int, float)):
+            return ("const", -v[1])
+        return ("un", "USub", v)
     if tag == "attr":
         inner = canon(t[1])
         if inner[0] == "var" and inner[1] in _MODS:
